@@ -2,7 +2,6 @@
 
 def register(add, PENDING):
     PENDING.update({
-        "C15": "simulation target per DESIGN.md 7 (randomness seam); check not built yet, therefore not claimed",
         "C18": "simulation target per DESIGN.md 5 real mode; check not built yet, therefore not claimed",
         "C33": "simulation target per DESIGN.md 8 (allocator seam); check not built yet, therefore not claimed",
         "C36": "simulation target per DESIGN.md 5 real mode; check not built yet, therefore not claimed",
@@ -23,3 +22,8 @@ def register(add, PENDING):
         "DESIGN.md 6, 9/C17",
         "Every loader is booted in a child process from directories with storage faults (bit flip, truncation, extension, zero fill, torn/lost/misdirected writes, missing and sparse oversize files, poison prover artifacts, config variants, mixed generations) and I/O faults; acceptance implies that every artifact the loader READ is canonical for the shape in use (byte-identical for leaf/private batch, parse-and-reserialise-identical for the public batch, C16 predicate for templates), over-cap files yield zero bytes read, and no *prover*.bin is ever read, also through commit and prove. One-directional: rejections are never alarmed.",
         STORE_NOTE)
+
+    add("C15", "exploration", "randomness seam: seeded, faulted (non-canonical-first, stuck, short-cycle) and own-source random streams through the two thread_rng sites; committed partial witness read back; chi-square at p=1e-9 on slot arrangements",
+        "DESIGN.md 7, 9/C15",
+        "Thousands of repeated commits per batch shape (N<=3 quick, N<=4 and N=8 thorough; every k in 1..N) on real leaf proofs with the simulator supplying the random stream: exactness of slot contents on every stream, seam closure (same seed => same commit), freshness and independence of preimages, canonicity with the rejection loop actually driven, uniformity of the slot arrangement by Pearson chi-square, plus own-source runs that exercise the shipped entropy source so a degraded generator is not masked by the hook. Public batches: supplied order then templates.",
+        "Trusted: the harness, the guarded RNG wrapper and witness accessors, plonky2's PartialWitness as the record of what will be proved. Uniformity is statistical (p = 1e-9 per test); own-source runs use real entropy and are the only part that is not a pure function of VERIF_SEED.")
